@@ -283,7 +283,8 @@ end
 def Program.acceptedWith (ce : Bool) (p : Program) : Bool :=
   distinctNames (p.decls.map (·.name) ++ p.aggs.map (·.1)) && p.decls.all VarDecl.ok
     && p.aggs.all (fun (_, d) => match d with
-        | .arr lo hi _ => decide (lo ≤ hi)
+        -- bounds are untyped literals: `lower_literal` limits them to `i32`
+        | .arr lo hi _ => decide (lo ≤ hi) && decide (-i32Max ≤ lo) && decide (hi ≤ i32Max)
         | .str _ fs => distinctNames (fs.map (·.1.toUpper)))
     && checkBlock ce p.ctx [] false p.body && p.body.lowerable
 
